@@ -81,8 +81,9 @@ _KW = {'SELECT', 'DISTINCT', 'FROM', 'JOIN', 'ON', 'WHERE', 'AND', 'OR', 'NOT', 
        'ORDER', 'BY', 'LIMIT', 'WITH', 'VALUES', 'NULL', 'ISNULL', 'NOTNULL', 'IS', 'GLOB',
        'RECURSIVE', 'UNION', 'INSERT', 'INTO', 'IGNORE', 'UPDATE', 'SET', 'DELETE', 'PRAGMA',
        'CONFLICT', 'DO', 'REPLACE', 'ASC', 'DESC', 'LEFT', 'INNER', 'OUTER', 'GROUP', 'HAVING',
-       'ALL', 'EXISTS', 'CASE', 'LIKE', 'BETWEEN', 'OFFSET', 'EXCEPT', 'INTERSECT'}
-_UNSUPPORTED = {'LEFT', 'OUTER', 'GROUP', 'HAVING', 'EXISTS', 'CASE', 'LIKE', 'BETWEEN',
+       'ALL', 'EXISTS', 'CASE', 'WHEN', 'THEN', 'ELSE', 'END', 'LIKE', 'BETWEEN', 'OFFSET', 'EXCEPT',
+       'INTERSECT'}
+_UNSUPPORTED = {'LEFT', 'OUTER', 'GROUP', 'HAVING', 'EXISTS', 'LIKE', 'BETWEEN',
                 'OFFSET', 'EXCEPT', 'INTERSECT', 'REPLACE', 'ALL'}
 
 
@@ -419,6 +420,24 @@ class _P:
             self.eat()
             n = self.eat()
             return ('lit', -int(n[1]))
+        if t == ('op', '-'):
+            self.eat()
+            return ('arith', '-', ('lit', 0), self.atom())
+        if t == ('kw', 'CASE'):
+            self.eat()
+            base = None if self.at('kw', 'WHEN') else self.expr()
+            arms = []
+            while self.at('kw', 'WHEN'):
+                self.eat()
+                c = self.expr()
+                self.eat('kw', 'THEN')
+                arms.append((c, self.expr()))
+            other = ('lit', None)
+            if self.at('kw', 'ELSE'):
+                self.eat()
+                other = self.expr()
+            self.eat('kw', 'END')
+            return ('case', base, arms, other)
         if t[0] == 'str':
             self.eat()
             q = t[1][0]
@@ -599,6 +618,17 @@ def ev(e, env, cx):
         a = ev(e[1], env, cx)
         b = ev(e[2], env, cx)
         return None if (a is None or b is None) else _b(lambda x, y: x + y, a, b)
+    if k == 'case':
+        base = None if e[1] is None else ev(e[1], env, cx)
+        for c, v in e[2]:
+            if e[1] is None:
+                hit = _truth(ev(c, env, cx))
+            else:
+                w = ev(c, env, cx)
+                hit = base is not None and w is not None and _b(lambda x, y: x == y, base, w)
+            if hit:
+                return ev(v, env, cx)
+        return ev(e[3], env, cx)
     if k == 'arith':
         a = ev(e[2], env, cx)
         b = ev(e[3], env, cx)
